@@ -261,7 +261,7 @@ fn path_case(ctx: &mut Ctx, r: &mut Rng, long: bool, for_sim: bool) -> Option<Bu
         // give every link a usable set so that geometry is exercised
         for l in net.iter_mut().skip(1) {
             if l.speed_set.is_none() && !l.speed_sets.contains_key(&tp.train_type) {
-                let s = l.speed_sets.values().next().cloned().unwrap();
+                let s = l.speed_sets.iter().min_by_key(|kv| *kv.0 as u8).map(|kv| kv.1.clone()).unwrap();
                 l.speed_sets.insert(tp.train_type, s);
             }
         }
